@@ -208,6 +208,8 @@ def run_case(case):
         g = tuple(sorted((ad, c, round(now - t, 3)) for (t, ad, c) in ghost if now - t <= longest + 2))
         return (a, b, g)
 
+    stats = {}
+
     def step(st, hist, now, act, path, ghost=()):
         """ghost: messages that were refused by the ip rule after the global rule had let them pass (the mechanism of
         known finding KF-C18-global-counts-refused: the global deque records them although they were not let through)"""
@@ -215,9 +217,22 @@ def run_case(case):
         now2 = now + dt
         restore(st, now2)
         if cmd == "CLEANUP":
-            lim.cleanup()
+            try:
+                lim.cleanup()
+            except Exception:
+                # an exception at disconnect is C19's business (nothing may escape the connection handler); for this property the
+                # limiter's state simply stays as it was
+                stats["cleanup_raised"] = stats.get("cleanup_raised", 0) + 1
+                restore(st, now2)
             return save(), hist, now2, False, ghost
-        limited = lim.is_limited(addr, [cmd])
+        try:
+            limited = lim.is_limited(addr, [cmd])
+        except Exception as e:
+            viol.append({"case": cfgname, "clause": "refused-only-when-a-rule-is-full", "sig": "raises:" + ";".join("%g,%s,%s" % a for a in path + [act]),
+                         "detail": "is_limited raised %r: the message is neither admitted nor refused by a rule | %s | seq=%s" % (
+                             e, cfgname, ";".join("%g,%s,%s" % a for a in path + [act]))})
+            restore(st, now2)
+            return save(), hist, now2, True, ghost
         st2 = save()
         app = applicable(rules, addr, cmd)
         must_refuse = False
@@ -327,7 +342,7 @@ def run_case(case):
     out_v = list(best.values())
     return {"id": cid, "viol": out_v, "outcome": "states=%d" % len(seen), "states": len(seen), "transitions": transitions, "evals": transitions,
             "nontrivial": len(outcomes) == 2, "desc": describe(case),
-            "extra": dict(("violating_transitions_" + k, n) for k, n in nviol.items()),
+            "extra": dict([("violating_transitions_" + k, n) for k, n in nviol.items()] + list(stats.items())),
             "sample": {"case": cid, "states": len(seen), "transitions": transitions, "both_decisions_seen": len(outcomes) == 2}}
 
 
